@@ -22,7 +22,7 @@ RULE = ("cases from rng(seed, 15, 0, i): a cluster graph (all pose types, parall
         "20..50 calls drawn from " + ", ".join(QUERIES) + " plus optimize(max_iter 1..3); snapshot compared around each call. distinct = fingerprint(spec, history); "
         "non-trivial = history with >= 1 numerical-Jacobian call on an SE(2)/SE(3) vertex and >= 1 optimize run.")
 REQ = ["eval:query-leaves-state-unchanged", "eval:repeat-returns-identical", "eval:optimize-changes-only-poses", "eval:operands-unchanged", "eval:copy-independent"] + ["query:" + q for q in QUERIES] + [
-    "class:numerical_jacobian_on_SE_vertex", "class:parallel_edges", "class:no_fixed_vertex_prior_anchored"]
+    "class:numerical_jacobian_on_SE_vertex", "class:parallel_edges", "class:no_fixed_vertex_prior_anchored", "class:graph_loaded_from_g2o"]
 PLAN = {
     "quick": {"cases": 480, "soft_s": 80, "min_nontrivial": 150, "require": REQ},
     "thorough": {"cases": 24000, "soft_s": 1400, "min_nontrivial": 6000, "require": REQ},
@@ -209,6 +209,22 @@ def run_case(ctx, i, rng):
         ctx.count("class:no_fixed_vertex_prior_anchored")
     g = M.build(spec)
     g_other = M.build(spec)
+    if i % 4 == 1:
+        # the same kind of history on a graph as the loader produces it (landmark offsets are the parameter objects themselves)
+        from . import c13
+
+        lspec, fam, ext = c13.make_spec(rng, ctx)
+        if not ext:
+            d0 = tempfile.mkdtemp(prefix="c15-", dir=os.environ.get("VF_SCRATCH"))
+            try:
+                pth = os.path.join(d0, "g.g2o")
+                M.build(lspec).to_g2o(pth)
+                g, g_other = M.Graph.from_g2o(pth), M.Graph.from_g2o(pth)
+                spec = lspec
+                labels = set()
+                ctx.count("class:graph_loaded_from_g2o")
+            finally:
+                shutil.rmtree(d0, ignore_errors=True)
     if "parallel_edges" in labels:
         ctx.count("class:parallel_edges")
     L = int(rng.integers(20, 51))
